@@ -187,13 +187,50 @@ def inline_adjacent_temps(tree):
     return tree
 
 
+def canonical_tests(tree):
+    """Second normalisation applied to every module: tests are brought to one spelling so that no rule depends on it.
+    `not (x is None)` -> `x is not None` (and is not / in / not in likewise); an ordered comparison with a numeric literal on the
+    LEFT is turned round (`0 < len(x)` -> `len(x) > 0`).  Only spellings change; evaluation order of the two operands of a comparison
+    with a literal is irrelevant."""
+    flip = {ast.Lt: ast.Gt, ast.Gt: ast.Lt, ast.LtE: ast.GtE, ast.GtE: ast.LtE}
+    neg = {ast.Is: ast.IsNot, ast.IsNot: ast.Is, ast.In: ast.NotIn, ast.NotIn: ast.In}
+
+    def is_num(e):
+        if isinstance(e, ast.UnaryOp) and isinstance(e.op, (ast.USub, ast.UAdd)):
+            e = e.operand
+        return isinstance(e, ast.Constant) and isinstance(e.value, (int, float)) and not isinstance(e.value, bool)
+
+    class T(ast.NodeTransformer):
+        def visit_UnaryOp(self, n):
+            self.generic_visit(n)
+            if isinstance(n.op, ast.Not) and isinstance(n.operand, ast.Compare) and len(n.operand.ops) == 1 and type(n.operand.ops[0]) in neg:
+                c = n.operand
+                new = ast.Compare(left=c.left, ops=[neg[type(c.ops[0])]()], comparators=c.comparators)
+                return ast.copy_location(new, n)
+            return n
+
+        def visit_Compare(self, n):
+            self.generic_visit(n)
+            if len(n.ops) == 1 and type(n.ops[0]) in flip and is_num(n.left) and not is_num(n.comparators[0]):
+                new = ast.Compare(left=n.comparators[0], ops=[flip[type(n.ops[0])]()], comparators=[n.left])
+                return ast.copy_location(new, n)
+            # neither side a literal: `a > b` is spelled `b < a`
+            if len(n.ops) == 1 and isinstance(n.ops[0], (ast.Gt, ast.GtE)) and not is_num(n.left) and not is_num(n.comparators[0]):
+                new = ast.Compare(left=n.comparators[0], ops=[flip[type(n.ops[0])]()], comparators=[n.left])
+                return ast.copy_location(new, n)
+            return n
+    tree = T().visit(tree)
+    ast.fix_missing_locations(tree)
+    return tree
+
+
 class Module:
     def __init__(self, name, path, relpath, src):
         self.name = name
         self.path = path
         self.relpath = relpath
         self.src = src
-        self.tree = inline_adjacent_temps(ast.parse(src, filename=path))
+        self.tree = canonical_tests(inline_adjacent_temps(ast.parse(src, filename=path)))
         self.imports = {}      # local name -> (module, attr or None)
         self.star_imports = []
         self._scan_imports()
